@@ -193,6 +193,73 @@ def dnc_family(parent_dnc, child_dnc, eager):
     return K, P, Q, S
 
 
+def canon(obj, skip=(), skip_cls=None):
+    """structural value of an object graph (no identities); the attribute names in `skip` are left
+    out of the top-level object and of every instance of `skip_cls` (do_not_copy attributes are
+    legitimately shared, so changes behind them may be visible on both sides)"""
+    def go(o, top, seen):
+        if isinstance(o, (list, dict, set)) or hasattr(type(o), "__spec_class__"):
+            if id(o) in seen:
+                return ("cycle",)
+            seen = seen | {id(o)}
+            if isinstance(o, list):
+                return ("list", tuple(go(x, False, seen) for x in o))
+            if isinstance(o, set):
+                return ("set", tuple(sorted(repr(go(x, False, seen)) for x in o)))
+            if isinstance(o, dict):
+                return ("dict", tuple((go(k, False, seen), go(v, False, seen)) for k, v in o.items()))
+            st = object.__getattribute__(o, "__dict__")
+            drop = skip if (top or (skip_cls is not None and isinstance(o, skip_cls))) else ()
+            return ("inst", type(o).__name__, tuple((k, go(v, False, seen)) for k, v in st.items() if k not in drop))
+        return ("scalar", type(o).__name__, repr(o))
+    return go(obj, True, frozenset())
+
+
+def dnc_parent_family(eager, decl):
+    """classes around a parent declared @spec_class(do_not_copy=True).  `decl` is what the spec
+    subclass Child says about do_not_copy: None (bare @spec_class), False, or a list of attribute
+    names (inherited and own).  Returns (K, Holder-maker, TrueSub, members) where members is a
+    list of (class, declared do_not_copy attribute names) for every class that is NOT itself
+    declared do_not_copy=True: one and two levels of spec / plain subclassing below the parent,
+    and below a do_not_copy=True class in the middle of the chain."""
+    from typing import Dict, List, Set
+
+    from spec_classes import spec_class
+    kw = {"bootstrap": True} if eager else {}
+
+    def mk(name, bases, ann, defaults, spec=True, **skw):
+        body = {"__annotations__": dict(ann), "__module__": "verif_generated", "__qualname__": name}
+        body.update(defaults)
+        c = type(name, bases, body)
+        return spec_class(**skw, **kw)(c) if spec else c
+
+    K = mk("K", (), {"name": str, "marks": List[int]}, {"marks": []}, key="name")
+    Base = mk("Base", (), {"label": str, "entries": List[int], "reg": Dict[str, int], "ks": List[K]},
+              {"label": "base", "entries": [], "reg": {}, "ks": []}, do_not_copy=True)
+    ckw = {} if decl is None else {"do_not_copy": decl if isinstance(decl, bool) else list(decl)}
+    Child = mk("Child", (Base,), {"count": int, "values": List[int], "table": Dict[str, List[int]], "inner": K,
+                                  "tags": Set[int], "items": List[K]},
+               {"count": 0, "values": [], "table": {}, "tags": set(), "items": []}, **ckw)
+    child_dnc = tuple(decl) if isinstance(decl, (list, tuple)) else ()
+    GrandSpec = mk("GrandSpec", (Child,), {"extra": str}, {"extra": "x"})
+    GrandList = mk("GrandList", (Child,), {"extra": str}, {"extra": "x"}, do_not_copy=["table", "ks"])
+    GrandPlain = mk("GrandPlain", (Child,), {}, {}, spec=False)
+    PlainBase = mk("PlainBase", (Base,), {}, {}, spec=False)
+    SpecOverPlain = mk("SpecOverPlain", (PlainBase,),
+                       {"count": int, "values": List[int], "table": Dict[str, List[int]], "inner": K,
+                        "tags": Set[int], "items": List[K]},
+                       {"count": 0, "values": [], "table": {}, "tags": set(), "items": []})
+    TrueSub = mk("TrueSub", (Child,), {"more": int}, {"more": 0}, do_not_copy=True)
+    Leaf = mk("Leaf", (TrueSub,), {"extra": str}, {"extra": "x"})
+    LeafPlain = mk("LeafPlain", (Leaf,), {}, {}, spec=False)
+    members = [(Child, child_dnc), (GrandSpec, ()), (GrandList, ("table", "ks")), (GrandPlain, child_dnc),
+               (SpecOverPlain, ()), (Leaf, ()), (LeafPlain, ())]
+
+    def holder(cls):
+        return mk("Holder", (), {"kid": cls, "kids": List[cls], "lookup": Dict[str, cls], "n": int}, {"n": 0})
+    return K, holder, TrueSub, members
+
+
 # ------------------------------------------------------------------ oracles evaluated in Python on the observed graphs
 SENTINELS = ("missing", "empty", "unchanged")
 
